@@ -99,7 +99,7 @@ if _cfg.get("operation") is not None:
 from pysnark.runtime import PrivVal, PubVal, ConstVal, LinComb, guarded, snark
 from pysnark.boolean import PrivValBool, PubValBool, LinCombBool
 from pysnark.fixedpoint import PrivValFxp, PubValFxp, LinCombFxp
-from pysnark.branching import if_then_else
+from pysnark.branching import if_then_else, BranchingValues, _if, _else, _endif, _range, _endfor, _while, _endwhile
 from pysnark.array import Array
 from pysnark.pack import PackBool, PackIntMod, PackList, PackRepeat
 __inputs__ = _cfg.get("inputs", [])
@@ -114,6 +114,7 @@ def __set_res__(r): __import__("pysnark.fixedpoint").fixedpoint.resolution = r
 def __set_bl__(b): _rt.bitlength = b
 def __cv__(c): return 0
 def __setenv__(name, value): os.environ[name] = value
+def __valret__(obj, ret): pass
 def __packinfo__(n, packer, bits): _side({"ev": "packed", "nbits": len(bits)})
 def __packout__(n, out): pass
 def __term__(mode): _side({"ev": "term", "mode": mode, "trace": _dump()})
